@@ -84,7 +84,7 @@ class ReducerImpl:
         if self.rk in ("near", "cum"):
             if P.obsmode == "bool":
                 tgt, tol = True, None
-            elif P.obsmode == "tol":
+            elif P.obsmode in ("tol", "edge"):
                 tgt, tol = P.target * P.u, 0.25 * P.u
             else:
                 tgt, tol = P.target * P.u, None
@@ -116,6 +116,9 @@ class ReducerImpl:
             if self.rk in ("near", "cum") and P.obsmode == "tol":
                 # inside / outside the tolerance band around the target, never near its edge
                 x = x + (0.2 * P.u if (i + self.nobs) % 2 == 0 else -0.2 * P.u)
+            if self.rk in ("near", "cum") and P.obsmode == "edge":
+                # matching observations sit exactly ON the edge of the tolerance band (documented: |h - h*| <= eps)
+                x = x + (0.25 * P.u if (i + self.nobs) % 2 == 0 else -0.25 * P.u)
             vals.append(x)
         return torch.tensor(vals, dtype=torch.float32).reshape(self.shape)
 
